@@ -34,7 +34,6 @@ w("spec fn isInlInt(v Value) bool = v.flag == SMALL_INT_FLAG || v.flag == INT64_
 w("// every right operand the headers admit (Std::AnyInt: Int of either representation and the")
 w("// nine sized kinds); a big Int operand is canonical (C06): it does not fit a machine word")
 w("spec fn isAnyInt(v Value) bool = wfv(v) && (isInlInt(v) || (isBig(v) && !fitsSmall(bigval(v.ptr))))")
-w("spec rec fn ipow(b int, e int) int = ite(e <= 0, 1, b * ipow(b, e - 1))")
 w("")
 
 # ---- generic shift helpers ----------------------------------------------------------------
